@@ -370,6 +370,62 @@ def apply_mutant(text, d):
     return "\n".join(out) + "\n"
 
 
+# ---- record keywords of the parser under examination -------------------------------------------
+
+_KW_CACHE = {}
+
+
+def source_keywords(fmt):
+    """Word-like string literals of the format's parser module in the tree under examination (record names, data names,
+    option words): the vocabulary a document may use to reach every record branch, including branches the valid seed
+    documents never enter."""
+    import ast
+    import os
+
+    from . import common
+
+    if fmt in _KW_CACHE:
+        return _KW_CACHE[fmt]
+    path = os.path.join(common.REPO, "src", "diffpy", "structure", "parsers", "p_%s.py" % fmt)
+    words = set()
+    try:
+        tree = ast.parse(open(path, encoding="utf-8").read())
+        for n in ast.walk(tree):
+            if isinstance(n, ast.Constant) and isinstance(n.value, str):
+                for w in n.value.replace(",", " ").split() if len(n.value) < 200 else ():
+                    if re.fullmatch(r"[A-Za-z_][A-Za-z0-9_\[\]\-]{1,40}", w):
+                        words.add(w)
+    except (OSError, SyntaxError):
+        pass
+    _KW_CACHE[fmt] = sorted(words)
+    return _KW_CACHE[fmt]
+
+
+def keyword_documents(fmt, text, rng, limit):
+    """documents obtained from `text` by bringing in a record keyword of the parser: as a new line (bare, with one number,
+    with words) at the start / before each of up to 6 lines / at the end, or in place of the first word of a line"""
+    kws = source_keywords(fmt)
+    lines = text.split("\n")
+    if lines and lines[-1] == "":
+        lines.pop()
+    n = len(lines)
+    pos = sorted(set([0, 1, n // 2, max(0, n - 1), n] + ([rng.randrange(n + 1) for _ in range(2)] if n else [])))
+    pos = [p for p in pos if 0 <= p <= n]
+    docs = []
+    for w in kws:
+        for p in pos:
+            for tail in ("", " 1", " x, y, z", " 1 2 3 4 5 6"):
+                docs.append("\n".join(lines[:p] + [w + tail] + lines[p:]) + "\n")
+        for p in pos:
+            if p < n and lines[p].split():
+                first = lines[p].split()[0]
+                docs.append("\n".join(lines[:p] + [lines[p].replace(first, w, 1)] + lines[p + 1:]) + "\n")
+    docs = sorted(set(docs))
+    if len(docs) > limit:
+        docs = rng.sample(docs, limit)
+    return docs
+
+
 # ---- shrinking ---------------------------------------------------------------------------
 
 def failure_key(fmt, real):
